@@ -167,8 +167,72 @@ func main() {
 			}
 		}
 	}
+	bad = append(bad, consolePhase()...)
 	if len(bad) > 10 {
 		bad = bad[:10]
 	}
 	json.NewEncoder(os.Stdout).Encode(map[string]interface{}{"rounds": rounds * 2, "bad": bad})
+}
+
+// flakyOut is the destination behind a ConsoleWriter: every 7th call fails (alternately an error and a short count),
+// every other call records what it was handed.
+type flakyOut struct {
+	mu    sync.Mutex
+	n     int
+	lines []string
+}
+
+func (f *flakyOut) Write(p []byte) (int, error) {
+	f.mu.Lock()
+	defer f.mu.Unlock()
+	f.n++
+	if f.n%7 == 0 {
+		if f.n%14 == 0 {
+			return len(p) / 2, nil
+		}
+		return 0, fmt.Errorf("destination down")
+	}
+	f.lines = append(f.lines, string(p))
+	return len(p), nil
+}
+
+// consolePhase: goroutines log through ONE ConsoleWriter (package-wide pooled scratch buffers) whose destination
+// fails now and then. Every Write the destination accepts must be exactly one event's own line: nothing of an event
+// whose Write failed, nothing of another goroutine's event.
+func consolePhase() []string {
+	bad := []string{}
+	oldH := zerolog.ErrorHandler
+	zerolog.ErrorHandler = func(error) {}
+	defer func() { zerolog.ErrorHandler = oldH }()
+	for r := 0; r < 4; r++ {
+		out := &flakyOut{}
+		l := zerolog.New(zerolog.ConsoleWriter{Out: out, NoColor: true, PartsExclude: []string{zerolog.TimestampFieldName}})
+		G, K := 6, 80
+		var wg sync.WaitGroup
+		for g := 0; g < G; g++ {
+			wg.Add(1)
+			go func(g int) {
+				defer wg.Done()
+				for k := 0; k < K; k++ {
+					l.Info().Int("g", g).Int("k", k).Str("s", "x y").Msg("m")
+				}
+			}(g)
+		}
+		wg.Wait()
+		seen := map[string]int{}
+		for _, ln := range out.lines {
+			var g, k int
+			if n, _ := fmt.Sscanf(ln, "INF m g=%d k=%d", &g, &k); n != 2 || ln != fmt.Sprintf("INF m g=%d k=%d s=\"x y\"\n", g, k) {
+				bad = append(bad, fmt.Sprintf("ConsoleWriter handed its destination something that is not one event's line: %q", ln))
+				continue
+			}
+			seen[fmt.Sprintf("%d/%d", g, k)]++
+		}
+		for key, c := range seen {
+			if c != 1 {
+				bad = append(bad, fmt.Sprintf("console event %s written %d times", key, c))
+			}
+		}
+	}
+	return bad
 }
